@@ -789,7 +789,13 @@ func (e *Engine) mkDeferred(s *state, fr *frame, c *ssa.CallCommon, pos token.Po
 	d := deferred{pos: pos}
 	var args []*Term
 	for _, a := range c.Args {
-		args = append(args, e.val(s, fr, a))
+		t := e.val(s, fr, a)
+		if t != nil {
+			if rb, ok := s.mem["rebind:"+t.key]; ok {
+				t = rb // a recycled reader after Reset(src): the reader over src
+			}
+		}
+		args = append(args, t)
 	}
 	switch {
 	case c.IsInvoke():
@@ -1000,6 +1006,14 @@ func (e *Engine) doCall(s *state, fr *frame, v *ssa.Call, c *ssa.CallCommon) boo
 		siteName += fmt.Sprintf("~%d", n) // a later loop iteration yields fresh results
 	}
 	site := mk("site", siteName, 0, nil)
+	// a recycled bufio.Reader pointed at a new source is a reader over that source: b.Reset(r) stands for b = bufio.NewReader(r)
+	if d.callee == "(*bufio.Reader).Reset" && d.recv != nil && len(d.args) == 1 && d.args[0] != nil && d.args[0].Kind != "nil" {
+		nr := mk("call", "bufio.NewReader", 0, d.recv.Typ, site, nil, d.args[0])
+		s.emit(Event{Kind: "call", Callee: "bufio.NewReader", Args: []*Term{d.args[0]}, Res: nr, Pos: v.Pos(), Ctx: fr.ctx, Depth: fr.depth, InFn: fr.fn})
+		s.emit(Event{Kind: "call", Callee: "recycled-reader", Recv: d.recv, Args: []*Term{d.args[0]}, Res: nr, Pos: v.Pos(), Ctx: fr.ctx, Depth: fr.depth, InFn: fr.fn})
+		s.mem["rebind:"+d.recv.key] = nr
+		return false
+	}
 	res := mk("call", d.callee, 0, v.Type(), append([]*Term{site, d.recv}, d.args...)...)
 	fr.env[v] = res
 	if st, ok := e.stub[d.callee]; ok {
